@@ -65,6 +65,14 @@ fn shape_set(v: usize, k: i64) -> Vec<SShape> {
             s(2, 3, SGeom::Path(vec![(0, 100), (50, 100)], 4), None),
             s(0, 0, SGeom::Rect((100, 0), (110, 10)), None),
         ],
+        // net names that are blank, or carry leading / trailing / interior blanks, on all three shape kinds
+        8 => vec![
+            s(0, 0, SGeom::Rect((10, 5), (40, 25)), Some(" ")),
+            s(0, 0, SGeom::Poly(l_shape((0, 100))), Some("vdd ")),
+            s(1, 0, SGeom::Path(vec![(0, 200), (40, 200)], 4), Some(" lead")),
+            s(1, 0, SGeom::Rect((50, 5), (90, 35)), Some("a b")),
+            s(1, 1, SGeom::Rect((0, 500), (7, 503)), Some("\t")),
+        ],
         // polygons of exactly four vertices: an axis-parallel rectangle listed counter-clockwise and clockwise (they
         // stay polygons), a parallelogram, a right trapezoid
         6 => vec![
@@ -169,14 +177,15 @@ fn gen(four: bool, c: &mut Chooser) -> Case {
                 let first = lay.insts[0].clone();
                 lay.insts.push(SInst { name: "again".into(), loc: (first.loc.0 + 1, first.loc.1 + 1), reflect: false, angle: Some(0.0), ..first });
             }
-            let sv = c.cost(8, "shape-set");
-            tags.push(["shapes:interleaved-all-kinds", "shapes:none", "shapes:single-rect", "shapes:one-layer-purpose", "shapes:cw-polygon+negative-rect", "shapes:rects-by-every-corner-pair", "shapes:four-vertex-polygons", "shapes:unusual-purpose-numbers"][sv]);
+            let sv = c.cost(9, "shape-set");
+            tags.push(["shapes:interleaved-all-kinds", "shapes:none", "shapes:single-rect", "shapes:one-layer-purpose", "shapes:cw-polygon+negative-rect", "shapes:rects-by-every-corner-pair", "shapes:four-vertex-polygons", "shapes:unusual-purpose-numbers", "shapes:blank-padded-nets"][sv]);
             lay.shapes = shape_set(sv, i as i64);
-            let an = c.cost(3, "annotations");
-            tags.push(["annotations:1", "annotations:0", "annotations:2"][an]);
+            let an = c.cost(4, "annotations");
+            tags.push(["annotations:1", "annotations:0", "annotations:2", "annotations:empty-and-blank-strings"][an]);
             lay.annotations = match an {
                 0 => vec![(format!("note {i}"), (11 + i as i64, -12))],
                 1 => vec![],
+                3 => vec![("a".into(), (1, 2)), ("".into(), (3, 4)), (" ".into(), (5, 6)), ("b ".into(), (7, 8))],
                 _ => vec![("B second".into(), (5, 5)), ("a first".into(), (5, 5))],
             };
             cell.layout = Some(lay);
@@ -572,7 +581,7 @@ impl CaseDriver for C14 {
     fn describe(&self, tier: Tier) -> Describe {
         Describe {
             rule: format!(
-                "{} cells (or none at all) forming EVERY DAG (every subset of the edges i -> j, i < j, each edge an instance) listed in EVERY order; the last cell with layout / layout+abstract / abstract-only views or no view at all (a placeholder cell) (all free); costed (deviation bound {}): units Nano/Micro/Angstrom, abstract view on the other cells, each instance's orientation (8, and the rotation stated as -90 / -180 / -270) and offset (incl. 2e9), a second placement with angle Some(0), the layout's shape set (default: 7 shapes of all three kinds with and without nets interleaved over 2 layers x 2 purposes; none; one rectangle; all on one layer/purpose with a reversed-corner rectangle; clockwise polygon + negative rectangle; rectangles given by every pair of opposite corners, a degenerate rectangle, an explicitly closed polygon, a path returning to its start and a path stating a point twice in a row; four-vertex polygons: an axis-parallel rectangle in both windings, a parallelogram, a right trapezoid; shapes on a third layer whose purposes are numbered 20 / 256 / 300 / -5, the message additionally drawing on its undeclared purpose 0), annotations 1/0/2, abstract ports 1/0/2 (second port on two layers) or one port over two layers holding each of the 9 pairs of shape kinds (rectangle, polygon, path), or three ports two of which share a net, or three ports the middle one without any geometry, blockages on 1/0/2 layers or the same 9 kind pairs, outline rectangle / L, layout and abstract views named differently from their cell or not named at all, a cell named like the library, a dot and another cell / with a dot and a slash of its own. Each case is checked raw->proto->raw (fresh and original Layers) and proto->raw->proto (message built independently by the harness). Non-trivial = has an instance or an abstract.",
+                "{} cells (or none at all) forming EVERY DAG (every subset of the edges i -> j, i < j, each edge an instance) listed in EVERY order; the last cell with layout / layout+abstract / abstract-only views or no view at all (a placeholder cell) (all free); costed (deviation bound {}): units Nano/Micro/Angstrom, abstract view on the other cells, each instance's orientation (8, and the rotation stated as -90 / -180 / -270) and offset (incl. 2e9), a second placement with angle Some(0), the layout's shape set (default: 7 shapes of all three kinds with and without nets interleaved over 2 layers x 2 purposes; none; one rectangle; all on one layer/purpose with a reversed-corner rectangle; clockwise polygon + negative rectangle; rectangles given by every pair of opposite corners, a degenerate rectangle, an explicitly closed polygon, a path returning to its start and a path stating a point twice in a row; four-vertex polygons: an axis-parallel rectangle in both windings, a parallelogram, a right trapezoid; shapes on a third layer whose purposes are numbered 20 / 256 / 300 / -5, the message additionally drawing on its undeclared purpose 0; net names that are blank or carry leading / trailing / interior blanks), annotations 1/0/2 or four of which one has the empty string and one a blank, abstract ports 1/0/2 (second port on two layers) or one port over two layers holding each of the 9 pairs of shape kinds (rectangle, polygon, path), or three ports two of which share a net, or three ports the middle one without any geometry, blockages on 1/0/2 layers or the same 9 kind pairs, outline rectangle / L, layout and abstract views named differently from their cell or not named at all, a cell named like the library, a dot and another cell / with a dot and a slash of its own. Each case is checked raw->proto->raw (fresh and original Layers) and proto->raw->proto (message built independently by the harness). Non-trivial = has an instance or an abstract.",
                 if self.four { "4".to_string() } else { "1..3".to_string() },
                 self.bound(tier)
             ),
@@ -624,7 +633,7 @@ impl CaseDriver for C14 {
             stats,
             &[
                 "cells:0", "cells:1", "cells:2", "cells:3", "views:layout", "views:layout+abstract", "views:abstract", "views:none", "dag:shared-dependency", "dag:chain", "order:not-dependencies-first-or-last", "shapes:interleaved-all-kinds", "shapes:none", "shapes:one-layer-purpose",
-                "shapes:cw-polygon+negative-rect", "shapes:rects-by-every-corner-pair", "shapes:four-vertex-polygons", "shapes:unusual-purpose-numbers", "annotations:0", "annotations:2", "ports:0", "ports:2-second-on-2-layers", "ports:kind-pair", "ports:two-on-one-net", "ports:one-without-geometry", "blockages:0", "blockages:2-layers", "blockages:kind-pair", "views:own-names", "inst:angle-Some(0)+second-placement",
+                "shapes:cw-polygon+negative-rect", "shapes:rects-by-every-corner-pair", "shapes:four-vertex-polygons", "shapes:unusual-purpose-numbers", "shapes:blank-padded-nets", "annotations:0", "annotations:2", "annotations:empty-and-blank-strings", "ports:0", "ports:2-second-on-2-layers", "ports:kind-pair", "ports:two-on-one-net", "ports:one-without-geometry", "blockages:0", "blockages:2-layers", "blockages:kind-pair", "views:own-names", "inst:angle-Some(0)+second-placement",
             ],
         )?;
         require_outcomes(stats, &["ok"])
